@@ -193,30 +193,53 @@ def run(ctx):
                f'prepare_integration_select rewrites `{norm(t.args[0])}` instead of the query it was given', file=QP, line=t.lineno)
     used_cb = {norm(t.args[1]) for t in trav if len(t.args) > 1}
     nw = 0
-    for cb in cbs:
-        if cb.name not in used_cb:
-            continue
-        node = cb.args.args[0].arg
-        for n in walk_no_nested(cb):
-            # stores
+    mod_fns = {n.name: n for n in ctx.src.tree(QP).body if isinstance(n, ast.FunctionDef)}
+
+    def writes_of(fn_, node, seen):
+        """(statement, canonical target text) of every store / mutating call in fn_ and in the module-level helpers it hands the node to; local names bound once
+        to an attribute of the node are read as that attribute (`parts = node.parts; parts.pop(0)`)"""
+        alias = {}
+        for n in walk_no_nested(fn_):
+            if isinstance(n, ast.Assign) and len(n.targets) == 1 and isinstance(n.targets[0], ast.Name) and isinstance(n.value, ast.Attribute) \
+                    and norm(n.value.value) == node:
+                alias[n.targets[0].id] = f'NODE.{n.value.attr}'
+        out = []
+
+        def canon(e):
+            t = norm(e)
+            if isinstance(e, ast.Name) and e.id in alias:
+                return alias[e.id]
+            if t == node or t.startswith(node + '.') or t.startswith(node + '['):
+                return 'NODE' + t[len(node):]
+            return t
+        for n in walk_no_nested(fn_):
             tgt = None
             if isinstance(n, (ast.Assign, ast.AugAssign)):
                 for t in (n.targets if isinstance(n, ast.Assign) else [n.target]):
                     if isinstance(t, (ast.Attribute, ast.Subscript)):
                         tgt = t
             if isinstance(n, ast.Call) and isinstance(n.func, ast.Attribute) and n.func.attr in ('pop', 'append', 'insert', 'remove', 'extend', 'clear', 'update', 'add') \
-                    and not isinstance(n.func.value, ast.Name):
+                    and (not isinstance(n.func.value, ast.Name) or n.func.value.id in alias):
                 tgt = n.func.value
             if isinstance(n, ast.Call) and dotted(n.func) in ('setattr', 'delattr'):
                 tgt = n
-            if tgt is None:
-                continue
+            if tgt is not None:
+                out.append((n, canon(tgt)))
+            if isinstance(n, ast.Call) and isinstance(n.func, ast.Name) and n.func.id in mod_fns and n.func.id not in seen:
+                callee = mod_fns[n.func.id]
+                for i_, a_ in enumerate(n.args):
+                    if isinstance(a_, ast.Name) and a_.id == node and i_ < len(callee.args.args):
+                        out += writes_of(callee, callee.args.args[i_].arg, seen | {n.func.id})
+        return out
+    for cb in cbs:
+        if cb.name not in used_cb:
+            continue
+        node = cb.args.args[0].arg
+        for n, txt in writes_of(cb, node, frozenset()):
             nw += 1
-            txt = norm(tgt)
-            gs = guards_of(n, cb)
-            if txt == f'{node}.parts' and isinstance(n, ast.Call) and n.func.attr == 'pop':
+            if txt == 'NODE.parts' and isinstance(n, ast.Call) and n.func.attr == 'pop':
                 pass        # when and what is removed: decided by the truth table (C11.rewrite-table)
-            elif txt == f'{node}.alias' and isinstance(n, ast.Assign):
+            elif txt == 'NODE.alias' and isinstance(n, ast.Assign):
                 pass        # when and which alias is added: decided by the truth table
             else:
                 ctx.ob('C11.rewrite-write-set', f'foreign-write:{txt}', False,
